@@ -109,6 +109,7 @@ Qed.
 Lemma secret_ok_eq c sec : secret_ok cf c sec = None -> String.eqb sec (c_secret c) = true.
 Proof.
   unfold secret_ok. destruct (match c_auth c with AM_Post => negb (f_post cf) | _ => false end); [discriminate|].
+  destruct (String.eqb sec ""); [discriminate|].
   destruct (String.eqb sec (c_secret c)); [reflexivity | discriminate].
 Qed.
 
@@ -133,14 +134,26 @@ Qed.
 Lemma presented_proves cr id sec c :
   cr_assert cr = None -> cred_id_sec cr = (id, sec) ->
   find_client cf id = Some c ->
-  (c_auth c = AM_None \/ ((c_auth c = AM_Basic \/ c_auth c = AM_Post) /\ String.eqb sec (c_secret c) = true)) ->
+  (c_auth c = AM_None \/ ((c_auth c = AM_Basic \/ c_auth c = AM_Post \/ c_auth c = AM_Other) /\ String.eqb sec (c_secret c) = true)) ->
   cred_proves cf cr (c_id c) = true.
 Proof.
   intros Hna Hcs Hf Hk. apply find_client_id in Hf as [Hid Hf]. unfold cred_proves. rewrite Hf.
   assert (Hp : presented cr = Some (id, sec)).
   { unfold presented. rewrite Hna. unfold cred_id_sec in Hcs. now rewrite Hcs. }
   rewrite Hp, Hid, String.eqb_refl.
-  destruct Hk as [-> | [[-> | ->] ->]]; reflexivity.
+  destruct Hk as [-> | [[-> | [-> | ->]] ->]]; reflexivity.
+Qed.
+
+(* a client registered with an auth method the library does not name is authenticated by its
+   secret and by nothing else *)
+Lemma cred_proves_other cr id c :
+  find_client cf id = Some c -> c_auth c = AM_Other -> cred_proves cf cr id = true ->
+  cr_assert cr = None /\ cred_id_sec cr = (id, c_secret c).
+Proof.
+  intros Hf Ha. unfold cred_proves, presented, cred_id_sec. rewrite Hf, Ha.
+  destruct (cr_assert cr); [discriminate|]. intro Hp. split; [reflexivity|].
+  destruct (cr_basic cr) as [[i s]|]; apply andb_true_iff in Hp as [E1 E2];
+    apply String.eqb_eq in E1, E2; cbn in *; congruence.
 Qed.
 
 Lemma prov_code_client_inl q cr c :
@@ -155,9 +168,9 @@ Proof.
   destruct (find_client cf id) as [c'|] eqn:Hf; [|discriminate].
   pose proof (proj2 (find_client_id _ _ Hf)) as Hf2.
   destruct (c_auth c') eqn:Hauth; try discriminate.
-  1,2: destruct (secret_ok cf c' sec) eqn:Hs; [discriminate|]; intros [= <-]; apply secret_ok_eq in Hs;
+  1,2,3: destruct (secret_ok cf c' sec) eqn:Hs; [discriminate|]; intros [= <-]; apply secret_ok_eq in Hs;
        split; [exact Hf2|]; split;
-       [eapply presented_proves; [exact Hcr | exact Hcs | exact Hf | right; split; [auto | exact Hs]]
+       [eapply presented_proves; [exact Hcr | exact Hcs | exact Hf | right; split; [tauto | exact Hs]]
        | unfold is_public; rewrite Hauth; discriminate].
   destruct (q_chal q) eqn:Hq; [|discriminate]. intros [= <-]. split; [exact Hf2|]. split;
     [eapply presented_proves; [exact Hcr | exact Hcs | exact Hf | now left] | discriminate].
@@ -174,9 +187,9 @@ Proof.
   destruct (find_client cf id) as [c'|] eqn:Hf; [|discriminate].
   pose proof (proj2 (find_client_id _ _ Hf)) as Hf2.
   destruct (c_auth c') eqn:Hauth; try discriminate.
-  1,2: destruct (secret_ok cf c' sec) eqn:Hs; [discriminate|]; intros [= <-]; apply secret_ok_eq in Hs;
+  1,2,3: destruct (secret_ok cf c' sec) eqn:Hs; [discriminate|]; intros [= <-]; apply secret_ok_eq in Hs;
        split; [exact Hf2|];
-       eapply presented_proves; [exact Hcr | exact Hcs | exact Hf | right; split; [auto | exact Hs]].
+       eapply presented_proves; [exact Hcr | exact Hcs | exact Hf | right; split; [tauto | exact Hs]].
   intros [= <-]. split; [exact Hf2|].
   eapply presented_proves; [exact Hcr | exact Hcs | exact Hf | now left].
 Qed.
@@ -195,9 +208,9 @@ Proof.
   pose proof (proj2 (find_client_id _ _ Hf)) as Hf2.
   destruct (has_refresh s c') eqn:Hr; cbn [negb]; [|discriminate].
   destruct (c_auth c') eqn:Hauth; try discriminate.
-  1,2: destruct (secret_ok cf c' sec) eqn:Hs; [discriminate|]; intros [= <-]; apply secret_ok_eq in Hs;
+  1,2,3: destruct (secret_ok cf c' sec) eqn:Hs; [discriminate|]; intros [= <-]; apply secret_ok_eq in Hs;
        split; [exact Hf2|]; split; [|exact Hr];
-       eapply presented_proves; [exact Hcr | exact Hcs | exact Hf | right; split; [auto | exact Hs]].
+       eapply presented_proves; [exact Hcr | exact Hcs | exact Hf | right; split; [tauto | exact Hs]].
   intros [= <-]. split; [exact Hf2|]. split; [|exact Hr].
   eapply presented_proves; [exact Hcr | exact Hcs | exact Hf | now left].
 Qed.
@@ -258,7 +271,11 @@ Inductive trans (s : st) : op -> st -> out -> Prop :=
 | T_drop cl :
     trans s (DropRefresh cl)
       {| reqs := reqs s; codes := codes s; rtoks := rtoks s; next := next s; ncode := ncode s;
-         norefresh := cl :: norefresh s |} ODone.
+         norefresh := cl :: norefresh s |} ODone
+| T_revoke n :
+    trans s (RevokeRT n)
+      {| reqs := reqs s; codes := codes s; rtoks := filter (fun x => negb (Nat.eqb (r_id x) n)) (rtoks s);
+         next := next s; ncode := ncode s; norefresh := norefresh s |} ODone.
 
 Lemma T_err s o r e : not_scope_refusal o (err r e) -> trans s o s (err r e).
 Proof. intro Hn. apply T_same; [destruct r; exact I | exact Hn]. Qed.
@@ -277,6 +294,7 @@ Qed.
 Lemma secret_ok_err c sec e : secret_ok cf c sec = Some e -> String.eqb e E_scope = false.
 Proof.
   unfold secret_ok. destruct (match c_auth c with AM_Post => negb (f_post cf) | _ => false end); [intros [= <-]; reflexivity|].
+  destruct (String.eqb sec ""); [intros [= <-]; reflexivity|].
   destruct (String.eqb sec (c_secret c)); [discriminate | intros [= <-]; reflexivity].
 Qed.
 Lemma legacy_client_err cr e : legacy_client cf cr = inr e -> String.eqb e E_scope = false.
@@ -482,7 +500,7 @@ Qed.
 
 Lemma step_trans r s o s' x : step H cf r s o = (s', x) -> trans H cf s o s' x.
 Proof.
-  destruct o as [cl uri scopes nonce chal ax | n sub stamp | n | pl f cr code uri ver | pl cr rt scopes | cl]; cbn [step].
+  destruct o as [cl uri scopes nonce chal ax | n sub stamp | n | pl f cr code uri ver | pl cr rt scopes | cl | n]; cbn [step].
   - (* authorize *)
     unfold do_authorize. destruct (find_client cf cl); [|intros [= <- <-]; (apply T_same; exact I)].
     destruct (ro_accepted cf ax && string_in (eff_uri uri ax) (c_redirects c) && negb (is_nil (eff_scopes scopes ax)) && extra_ok ax); intros [= <- <-];
@@ -495,6 +513,7 @@ Proof.
     + apply code_step_trans.
   - rewrite read_grant_ok, read_field_ok. apply refresh_step_trans.
   - intros [= <- <-]. apply T_drop.
+  - intros [= <- <-]. apply T_revoke.
 Qed.
 
 End P2.
